@@ -219,113 +219,7 @@ func runC13(p *Prog, r *Report) {
 		r.Floor("R1", "assignments of workerPool.workersCount", n, 2)
 	}
 
-	// ---- R2: per iteration of the worker loop ----
-	{
-		var wcall *ssa.Call
-		allCalls(workerFunc, func(b *ssa.BasicBlock, c ssa.CallInstruction) {
-			if cv, ok := c.(*ssa.Call); ok && cv.Call.StaticCallee() == nil && !cv.Call.IsInvoke() {
-				if _, fv := loadedField(cv.Call.Value); fv != nil && fv.Name() == "WorkerFunc" {
-					wcall = cv
-				}
-			}
-		})
-		if wcall == nil {
-			r.Undecided("R2", "workerFunc: WorkerFunc dispatch", "not found")
-		} else {
-			header := loopHeaderOf(wcall.Block())
-			const (
-				bServed uint64 = 1 << iota
-				bClosed
-				bStClosed
-				bStHijacked
-			)
-			n, bad := 0, 0
-			var wit []string
-			detail := ""
-			endIter := func(x *Explorer, st *State, where string) {
-				if !st.Has(bServed) {
-					return
-				}
-				n++
-				okClosed := st.Has(bClosed) && st.Has(bStClosed) && !st.Has(bStHijacked)
-				okHij := st.Has(bStHijacked) && !st.Has(bClosed) && !st.Has(bStClosed)
-				hij := x.resolvesErrHijacked(st, wcall)
-				good := (okClosed && hij != True) || (okHij && hij != False)
-				if !good {
-					bad++
-					if wit == nil {
-						wit = x.Path(st)
-						detail = fmt.Sprintf("%s: served=%v closed=%v StateClosed=%v StateHijacked=%v", where, st.Has(bServed), st.Has(bClosed), st.Has(bStClosed), st.Has(bStHijacked))
-					}
-				}
-				st.Ev &^= bServed | bClosed | bStClosed | bStHijacked
-			}
-			x := NewExplorer(p, workerFunc, Hooks{
-				Instr: func(x *Explorer, st *State, in ssa.Instruction) {
-					c, ok := in.(ssa.CallInstruction)
-					if !ok {
-						return
-					}
-					switch {
-					case in == ssa.Instruction(wcall):
-						if st.Has(bServed) {
-							endIter(x, st, "second dispatch in one iteration")
-						}
-						st.Set(bServed)
-					case isInvoke(c, "Close") && typeIsNetConn(c.Common().Value.Type()):
-						if st.Has(bClosed) {
-							bad++
-						}
-						st.Set(bClosed)
-					default:
-						if _, fv := loadedField(c.Common().Value); fv != nil && fv.Name() == "connState" && len(c.Common().Args) == 2 {
-							if k, okc := constInt(c.Common().Args[1]); okc {
-								switch k {
-								case 3: // StateHijacked
-									st.Set(bStHijacked)
-								case 4: // StateClosed
-									st.Set(bStClosed)
-								}
-							}
-						}
-					}
-				},
-				Edge: func(x *Explorer, st *State, from, to *ssa.BasicBlock) {
-					if header != nil && to == header && inLoop(header, from) {
-						endIter(x, st, "loop continues")
-					}
-				},
-				Exit: func(x *Explorer, st *State, ret *ssa.Return, pan *ssa.Panic) {
-					if ret != nil {
-						endIter(x, st, "worker exits")
-					}
-				},
-			})
-			x.TrackAll = true
-			x.Filter = noIntFilter
-			// the outcome of this iteration's comparison with errHijacked must still be known when the terminal
-			// action is taken, however far from the comparison that happens (a flag carried across iterations is not it)
-			for _, b := range workerFunc.Blocks {
-				for _, in := range b.Instrs {
-					if bo, ok := in.(*ssa.BinOp); ok && (bo.Op == token.EQL || bo.Op == token.NEQ) &&
-						(globalOf(bo.X) == "errHijacked" || globalOf(bo.Y) == "errHijacked") {
-						x.Track(bo)
-					}
-				}
-			}
-			x.Run(nil)
-			r.Check("R2", "workerFunc: each served connection gets exactly one terminal action (Close+StateClosed, or StateHijacked iff errHijacked)", bad == 0 && n > 0, p.Pos(wcall.Pos()),
-				fmt.Sprintf("%d of %d explored iteration ends violate it (%s)", bad, n, detail), wit...)
-		}
-	}
-	// constants used above must match the declared ConnState values
-	for name, want := range map[string]int64{"StateHijacked": 3, "StateClosed": 4} {
-		if v, ok := constOfObj(p.byPath[rootPkg].Types, name); ok {
-			r.Check("R2", "ConnState constant "+name+" has the value the rule assumes", v.ExactString() == fmt.Sprint(want), "-", "value "+v.ExactString())
-		} else {
-			r.Undecided("R2", "ConnState constant "+name, "not found")
-		}
-	}
+	workerLoopTerminalRule(p, r, workerFunc)
 
 	// ---- R3: Serve sends to exactly one channel iff true ----
 	{
@@ -459,4 +353,116 @@ func (x *Explorer) resolvesErrHijacked(st *State, call *ssa.Call) Abs {
 		}
 	}
 	return res
+}
+
+// workerLoopTerminalRule (C13.R2, shared with C12): per iteration of the worker loop, exactly one terminal action for
+// the connection that was served, chosen by this iteration's result.
+func workerLoopTerminalRule(p *Prog, r *Report, workerFunc *ssa.Function) {
+	{
+		var wcall *ssa.Call
+		allCalls(workerFunc, func(b *ssa.BasicBlock, c ssa.CallInstruction) {
+			if cv, ok := c.(*ssa.Call); ok && cv.Call.StaticCallee() == nil && !cv.Call.IsInvoke() {
+				if _, fv := loadedField(cv.Call.Value); fv != nil && fv.Name() == "WorkerFunc" {
+					wcall = cv
+				}
+			}
+		})
+		if wcall == nil {
+			r.Undecided("R2", "workerFunc: WorkerFunc dispatch", "not found")
+		} else {
+			header := loopHeaderOf(wcall.Block())
+			const (
+				bServed uint64 = 1 << iota
+				bClosed
+				bStClosed
+				bStHijacked
+			)
+			n, bad := 0, 0
+			var wit []string
+			detail := ""
+			endIter := func(x *Explorer, st *State, where string) {
+				if !st.Has(bServed) {
+					return
+				}
+				n++
+				okClosed := st.Has(bClosed) && st.Has(bStClosed) && !st.Has(bStHijacked)
+				okHij := st.Has(bStHijacked) && !st.Has(bClosed) && !st.Has(bStClosed)
+				hij := x.resolvesErrHijacked(st, wcall)
+				good := (okClosed && hij != True) || (okHij && hij != False)
+				if !good {
+					bad++
+					if wit == nil {
+						wit = x.Path(st)
+						detail = fmt.Sprintf("%s: served=%v closed=%v StateClosed=%v StateHijacked=%v", where, st.Has(bServed), st.Has(bClosed), st.Has(bStClosed), st.Has(bStHijacked))
+					}
+				}
+				st.Ev &^= bServed | bClosed | bStClosed | bStHijacked
+			}
+			x := NewExplorer(p, workerFunc, Hooks{
+				Instr: func(x *Explorer, st *State, in ssa.Instruction) {
+					c, ok := in.(ssa.CallInstruction)
+					if !ok {
+						return
+					}
+					switch {
+					case in == ssa.Instruction(wcall):
+						if st.Has(bServed) {
+							endIter(x, st, "second dispatch in one iteration")
+						}
+						st.Set(bServed)
+					case isInvoke(c, "Close") && typeIsNetConn(c.Common().Value.Type()):
+						if st.Has(bClosed) {
+							bad++
+						}
+						st.Set(bClosed)
+					default:
+						if _, fv := loadedField(c.Common().Value); fv != nil && fv.Name() == "connState" && len(c.Common().Args) == 2 {
+							if k, okc := constInt(c.Common().Args[1]); okc {
+								switch k {
+								case 3: // StateHijacked
+									st.Set(bStHijacked)
+								case 4: // StateClosed
+									st.Set(bStClosed)
+								}
+							}
+						}
+					}
+				},
+				Edge: func(x *Explorer, st *State, from, to *ssa.BasicBlock) {
+					if header != nil && to == header && inLoop(header, from) {
+						endIter(x, st, "loop continues")
+					}
+				},
+				Exit: func(x *Explorer, st *State, ret *ssa.Return, pan *ssa.Panic) {
+					if ret != nil {
+						endIter(x, st, "worker exits")
+					}
+				},
+			})
+			x.TrackAll = true
+			x.Filter = noIntFilter
+			// the outcome of this iteration's comparison with errHijacked must still be known when the terminal
+			// action is taken, however far from the comparison that happens (a flag carried across iterations is not it)
+			for _, b := range workerFunc.Blocks {
+				for _, in := range b.Instrs {
+					if bo, ok := in.(*ssa.BinOp); ok && (bo.Op == token.EQL || bo.Op == token.NEQ) &&
+						(globalOf(bo.X) == "errHijacked" || globalOf(bo.Y) == "errHijacked") {
+						x.Track(bo)
+					}
+				}
+			}
+			x.Run(nil)
+			r.Check("R2", "workerFunc: each served connection gets exactly one terminal action (Close+StateClosed, or StateHijacked iff errHijacked)", bad == 0 && n > 0, p.Pos(wcall.Pos()),
+				fmt.Sprintf("%d of %d explored iteration ends violate it (%s)", bad, n, detail), wit...)
+		}
+	}
+	// constants used above must match the declared ConnState values
+	for name, want := range map[string]int64{"StateHijacked": 3, "StateClosed": 4} {
+		if v, ok := constOfObj(p.byPath[rootPkg].Types, name); ok {
+			r.Check("R2", "ConnState constant "+name+" has the value the rule assumes", v.ExactString() == fmt.Sprint(want), "-", "value "+v.ExactString())
+		} else {
+			r.Undecided("R2", "ConnState constant "+name, "not found")
+		}
+	}
+
 }
